@@ -3921,6 +3921,10 @@ impl<'s> Semantics<'s> {
             let count = self.operand_load(block, &detail.operands[2])?;
 
             let bits = dst.bits();
+            // the processor masks the count to 5 bits (6 for 64-bit operands);
+            // a masked count of zero changes no flag
+            let count = self.mask_shift_count(bits, count)?;
+            let affected = Expr::cmpneq(count.clone(), expr_const(0, count.bits()))?;
             let tmp = Expr::or(
                 Expr::shl(
                     Expr::zext(bits * 2, dst.clone())?,
@@ -3949,10 +3953,23 @@ impl<'s> Semantics<'s> {
                 )?,
             )?;
 
-            block.assign(scalar("CF", 1), cf);
+            self.assign_flag_if(block, "CF", &affected, cf)?;
 
-            self.set_zf(block, result.clone())?;
-            self.set_sf(block, result.clone())?;
+            // OF (defined for a count of one): the sign of the destination changed
+            let sign = |e: &Expression| -> Result<Expression, Error> {
+                Expr::trun(
+                    1,
+                    Expr::shr(e.clone(), expr_const(e.bits() as u64 - 1, e.bits()))?,
+                )
+            };
+            self.assign_flag_if(
+                block,
+                "OF",
+                &affected,
+                Expr::xor(sign(&dst)?, sign(&result)?)?,
+            )?;
+
+            self.set_zf_sf_if(block, &affected, result.clone())?;
 
             self.operand_store(block, &detail.operands[0], result)?;
 
@@ -3977,6 +3994,10 @@ impl<'s> Semantics<'s> {
             let count = self.operand_load(block, &detail.operands[2])?;
 
             let bits = dst.bits();
+            // the processor masks the count to 5 bits (6 for 64-bit operands);
+            // a masked count of zero changes no flag
+            let count = self.mask_shift_count(bits, count)?;
+            let affected = Expr::cmpneq(count.clone(), expr_const(0, count.bits()))?;
             let tmp = Expr::or(
                 Expr::zext(bits * 2, dst.clone())?,
                 Expr::shl(
@@ -4001,10 +4022,23 @@ impl<'s> Semantics<'s> {
                 )?,
             )?;
 
-            block.assign(scalar("CF", 1), cf);
+            self.assign_flag_if(block, "CF", &affected, cf)?;
 
-            self.set_zf(block, result.clone())?;
-            self.set_sf(block, result.clone())?;
+            // OF (defined for a count of one): the sign of the destination changed
+            let sign = |e: &Expression| -> Result<Expression, Error> {
+                Expr::trun(
+                    1,
+                    Expr::shr(e.clone(), expr_const(e.bits() as u64 - 1, e.bits()))?,
+                )
+            };
+            self.assign_flag_if(
+                block,
+                "OF",
+                &affected,
+                Expr::xor(sign(&dst)?, sign(&result)?)?,
+            )?;
+
+            self.set_zf_sf_if(block, &affected, result.clone())?;
 
             self.operand_store(block, &detail.operands[0], result)?;
 
